@@ -31,9 +31,29 @@ for d in sorted(glob.glob(f'{R}/seeded/*/')):
     out.append('| %s | %s | %s | %s | %s | %s | %s |' % (os.path.basename(d[:-1]), m.get('property'), esc(m.get('summary', '')[:220]), esc(m.get('needs', '')[:200]),
         'yes' if ev.get('confirmed') else 'no', ('%s tier: `%s`' % (ev.get('check', {}).get('tier'), esc((ev.get('check', {}).get('lines') or ['', ''])[1].replace('signature:', '').strip()))) if m.get('detected_by_check') else 'NOT detected', esc(first)))
 seed_tbl = '\n'.join(out)
+# per-check summary from claims + evidence
+out = ['| id | level | decided by | quick tier measured (last run) | seeded changes caught |', '|---|---|---|---|---|']
+seeds = collections.defaultdict(list)
+for d in sorted(glob.glob(f'{R}/seeded/*/')):
+    m = json.load(open(d + 'meta.json'))
+    seeds[m.get('property')].append(os.path.basename(d[:-1]) + ('' if m.get('detected_by_check') else ' (missed)'))
+for f in sorted(glob.glob(f'{R}/tools/claims/C*.json')):
+    i = os.path.basename(f)[:-5]
+    c = json.load(open(f))
+    ev = {}
+    try: ev = json.load(open(f'{R}/evidence/{i}.json'))
+    except Exception: pass
+    cov = ev.get('coverage', {})
+    nums = []
+    for k in ('evaluations', 'states', 'transitions', 'traces_validated_against_impl', 'distinct_nontrivial', 'scenarios_total', 'programs'):
+        if k in cov: nums.append('%s=%s' % (k, cov[k]))
+    nums.append('exhaustive=%s' % cov.get('exhaustive'))
+    nums.append('tier=%s wall=%.0fs' % (ev.get('tier'), ev.get('wall_s', 0)))
+    out.append('| %s | %s | %s | %s | %s |' % (i, c['category'], esc(c['technique'][:230]), esc(', '.join(nums)), ', '.join(seeds.get(i, [])) or '-'))
+checks_tbl = '\n'.join(out)
 p = f'{R}/DESIGN.md'
 s = open(p).read()
-for name, tbl in (('FIXED', fixed_tbl), ('OPEN', open_tbl), ('SEEDED', seed_tbl)):
+for name, tbl in (('FIXED', fixed_tbl), ('OPEN', open_tbl), ('SEEDED', seed_tbl), ('CHECKS', checks_tbl)):
     pat = re.compile(r'(<!-- BEGIN %s -->).*?(<!-- END %s -->)' % (name, name), re.S)
     if pat.search(s):
         s = pat.sub(lambda m: m.group(1) + '\n' + tbl + '\n' + m.group(2), s)
